@@ -3,7 +3,7 @@ The same ARGS/CALL/POST text is compiled twice: for CBMC (symbolic pre-state) an
 (pre-state decoded from the counterexample; 'real' mode takes the post-state from the real library)."""
 
 class MeshHarness:
-    def __init__(self, args, call, post, op, snap='', call2='', post2='', op2=None, extra_args='', pre_assume='', list_arg=None):
+    def __init__(self, args, call, post, op, snap='', call2='', post2='', op2=None, extra_args='', pre_assume='', list_arg=None, pre=None):
         self.args = args          # C: declarations using ARG(i), plus __CPROVER_assume on their ranges
         self.call = call          # C: the call under test (may set `ret`)
         self.post = post          # C: __CPROVER_assert lines over o (snapshot), m, args
@@ -12,15 +12,17 @@ class MeshHarness:
         self.call2 = call2; self.post2 = post2; self.op2 = op2
         self.pre_assume = pre_assume   # extra assumptions on the pre-state (after wf)
         self.list_arg = list_arg       # name of an int array + length variable passed as list argument (native: extra ints)
+        self.pre = pre or '  TK m; sym_mesh(&m); __CPROVER_assume(wf(&m));'
 
     def cbmc_text(self):
         return '''
 #define ARG(i) nondet_int()
 #define LISTN() nondet_int()
 #define LISTV(i) nondet_int()
+#define MODE_IS_REAL 0
 void harness(void) {
-  TK m; sym_mesh(&m); __CPROVER_assume(wf(&m));
-  int ret = 0; int ret_exc = 0;
+%(prest)s
+  int ret = 0; int ret_exc = 0; int rn = 0; int rv[8] = {0, 0, 0, 0, 0, 0, 0, 0};
 %(args)s
 %(pre)s
   TK o = TopologyKernel__copy(&m);
@@ -31,23 +33,24 @@ void harness(void) {
 %(call2)s
 %(post2)s
 }
-''' % dict(args=self.args, pre=self.pre_assume, snap=self.snap, call=self.call, post=self.post, call2=self.call2, post2=self.post2)
+''' % dict(args=self.args, pre=self.pre_assume, snap=self.snap, call=self.call, post=self.post, call2=self.call2, post2=self.post2, prest=self.pre)
 
     def native_text(self):
         return '''
-static int *W_PRE, *W_POST, *W_POST2; static int MODE_REAL; static int NARGS[4]; static int XLIST[64]; static int XLIST_N;
+static int *W_PRE, *W_POST, *W_POST2; static int MODE_REAL; static int NARGS[4]; static int XLIST[64]; static int XLIST_N; static int XRET[8]; static int XRET_N;
 #define ARG(i) (NARGS[i])
 #define LISTN() (XLIST_N)
 #define LISTV(i) (XLIST[i])
+#define MODE_IS_REAL MODE_REAL
 int native_check(void) {
   TK m; unwitness(W_PRE, &m, NARGS);
-  int ret = 0; int ret_exc = 0;
+  int ret = 0; int ret_exc = 0; int rn = 0; int rv[8] = {0, 0, 0, 0, 0, 0, 0, 0};
 %(args)s
 %(pre)s
   __CPROVER_assume(wf(&m));
   TK o = TopologyKernel__copy(&m);
   int pa[4];
-  if (MODE_REAL) { unwitness(W_POST, &m, pa); ret = pa[2]; ret_exc = pa[3]; }
+  if (MODE_REAL) { unwitness(W_POST, &m, pa); ret = pa[2]; ret_exc = pa[3]; rn = XRET_N; for (int i = 0; i < 8; i++) rv[i] = XRET[i]; }
   else {
 %(call)s
   }
